@@ -58,7 +58,7 @@ impl PoolB {
 /// Pool for the client explorer: honest chains, the adversarial chain, and for every epoch
 /// boundary the adversarial chain grafted onto the honest one (with the tampered copies of the
 /// honest parent the adversary needs), plus links re-targeted to the following epoch.
-pub fn build_pool(w: &World, honest_chains: &[&str], threads: usize) -> PoolB {
+pub fn build_pool(w: &World, honest_chains: &[&str], segments: bool, threads: usize) -> PoolB {
     let a = w.chain("A");
     let mut out: Vec<(Certificate, Origin, bool)> = vec![];
     let mut seen = BTreeSet::new();
@@ -111,6 +111,20 @@ pub fn build_pool(w: &World, honest_chains: &[&str], threads: usize) -> PoolB {
                 }
             }
         }
+        // adversarial segments of length 2 that cross an epoch boundary, chained to every genuine
+        // non-genesis certificate (every hash a warm cache can hold), whatever its epoch
+        for (hpos, hc) in h.certs.iter().enumerate().skip(1).filter(|_| segments) {
+            for apos in 1..a.certs.len().saturating_sub(1) {
+                let mut lower = a.certs[apos].clone();
+                lower.previous_hash = hc.hash.clone();
+                let lower = rehash(lower);
+                let mut upper = a.certs[apos + 1].clone();
+                upper.previous_hash = lower.hash.clone();
+                let tag = format!("~segment-A[{apos}..{}]-onto:={hname}[{hpos}]", apos + 1);
+                push(&mut out, lower, "A", apos, tag.clone(), false);
+                push(&mut out, rehash(upper), "A", apos + 1, tag, false);
+            }
+        }
         // genesis-epoch graft: rewritten unsigned fields of the genesis certificate + an
         // adversary-signed certificate of the genesis epoch chained to it + the adversarial chain on top
         for (cert, chain, pos, m) in crate::pool::genesis_epoch_graft(w, hname).members {
@@ -152,6 +166,9 @@ pub fn build_pool(w: &World, honest_chains: &[&str], threads: usize) -> PoolB {
 #[derive(Clone, Copy, Debug, PartialEq, Eq, Hash, PartialOrd, Ord)]
 pub enum Ans {
     Member(usize),
+    /// the content of a pool member served under the hash that was requested (its `hash` field
+    /// overwritten, nothing recomputed): one certificate disguised as another
+    Disguised(usize),
     NotFound,
     Error,
 }
@@ -189,6 +206,11 @@ impl CertificateAggregatorRequest for Provider {
         log.push((hash.to_string(), ans));
         match ans {
             Ans::Member(i) => Ok(Some(self.messages[i].clone())),
+            Ans::Disguised(i) => {
+                let mut m = self.messages[i].clone();
+                m.hash = hash.to_string();
+                Ok(Some(m))
+            }
             Ans::NotFound => Ok(None),
             Ans::Error => Err(anyhow::anyhow!("aggregator unreachable")),
         }
@@ -279,11 +301,14 @@ pub struct Bounds {
     pub max_calls: usize,
     /// provider deviations (answers differing from the honest one) per history
     pub max_devs: usize,
+    /// deviations may also serve any pool member's content under the requested hash
+    pub disguised_answers: bool,
 }
 
 fn ans_label(pool: &PoolB, a: Ans) -> Value {
     match a {
         Ans::Member(i) => json!(pool.label(i)),
+        Ans::Disguised(i) => json!(format!("<under-the-requested-hash>{}", pool.label(i))),
         Ans::NotFound => json!("<not-found>"),
         Ans::Error => json!("<error>"),
     }
@@ -309,6 +334,9 @@ pub fn history_from_json(pool: &PoolB, v: &Value) -> Option<Vec<Call>> {
             let a = match d["answer"].as_str()? {
                 "<not-found>" => Ans::NotFound,
                 "<error>" => Ans::Error,
+                l if l.starts_with("<under-the-requested-hash>") => {
+                    Ans::Disguised(pool.find(&l["<under-the-requested-hash>".len()..])?)
+                }
                 l => Ans::Member(pool.find(l)?),
             };
             devs.push((r, a));
@@ -349,7 +377,12 @@ pub fn judge(pool: &PoolB, res: &CallResult, call: &Call, cache_was_empty: bool)
         let validated_here = res.events.iter().any(|e| !e.0 && e.1 == pool.members[d.at].cert.hash);
         let parent_hash = pool.members[d.at].cert.previous_hash.as_str();
         let served_content_is_not_the_hashed_one = res.requests.iter().any(|(h, a)| {
-            h == parent_hash && matches!(a, Ans::Member(i) if !pool.facts[*i].hash_ok)
+            h == parent_hash
+                && match a {
+                    Ans::Member(i) => !pool.facts[*i].hash_ok,
+                    Ans::Disguised(i) => !(pool.facts[*i].hash_ok && pool.members[*i].cert.hash == *h),
+                    _ => false,
+                }
         });
         let judged_against_unchecked_answer =
             !d.is_node && validated_here && from_cache.contains(&parent_hash) && served_content_is_not_the_hashed_one;
@@ -413,12 +446,18 @@ fn expand_state(
     st: &StateInfo,
     start: usize,
     budget: usize,
+    disguised_answers: bool,
     rep: &mut Report,
     fnd: &mut Found,
 ) -> Vec<(Cache, usize, Call)> {
     let mut successors = vec![];
     let n = pool.members.len();
     let mut alternatives: Vec<Ans> = (0..n).map(Ans::Member).collect();
+    if disguised_answers {
+        // contents that are themselves hash-consistent certificates (a disguised tampered copy
+        // adds nothing: the content never matches the hash it is served under anyway)
+        alternatives.extend((0..n).filter(|i| pool.facts[*i].hash_ok).map(Ans::Disguised));
+    }
     alternatives.push(Ans::NotFound);
     alternatives.push(Ans::Error);
     {
@@ -464,6 +503,10 @@ fn expand_state(
                         if *alt == given {
                             continue;
                         }
+                        // a member that already claims the requested hash is not disguised
+                        if matches!(alt, Ans::Disguised(i) if pool.members[*i].cert.hash == res.requests[r].0) {
+                            continue;
+                        }
                         let mut d = devs.clone();
                         d.push((r, *alt));
                         stack.push(d);
@@ -494,7 +537,7 @@ pub fn explore(pool: &PoolB, w: &World, bounds: &Bounds, threads: usize) -> Seam
             let mut r = Report::new("model_checking", "");
             let mut f: Found = vec![];
             let budget = budget_total.saturating_sub(st.devs_used);
-            let succ = expand_state(pool, vkey, st, start, budget, &mut r, &mut f);
+            let succ = expand_state(pool, vkey, st, start, budget, bounds.disguised_answers, &mut r, &mut f);
             (r, f, succ)
         });
         let mut next: Vec<StateInfo> = vec![];
